@@ -36,14 +36,14 @@ RULE = ("alphabet of 23 actions: poll answered by the simulator with {1 event, 2
         ". Round-5 addition (walks): three event-queue conversations in one world - the main region, a neighbour region that was announced and never got as far as its handshake (incl. its teardown), and a second avatar standing in the same simulator - each judged on its own stream"
         ". Rounds 6-7: events injected as Message objects with enum members; swallowing by position with two identical events in one response; the clock advances between polls (action W in the alphabet)"
         ". Round 9: three events of which the third equals the first (or is its integer/real look-alike) with only the last swallowed; events injected from one reused Message object"
-        ". Round 10: bursts of 1001-2500 injected events waiting for one response")
+        ". Round 10: bursts of 1001-2500 injected events waiting for one response. Round 11: every other simulator response has a compressed body (Content-Encoding gzip / deflate)")
 ASSUMPTIONS = [
     "the simulator sends every event once, with increasing response ids, and ignores acks (as the code's own comment says)",
     "the viewer repeats a poll with the same ack only when it did not receive the previous response",
     "a 200 response always carries at least one event; 'no events' is HTTP 502 (timeout) from the simulator",
     "after a region teardown the viewer starts a new event-queue session (ack undefined)",
 ]
-MUST_REACH = {"polls": 3000, "replays_served": 50, "responses_lost": 100, "events_swallowed": 100, "emptied_responses": 20,
+MUST_REACH = {"responses_with_a_compressed_body": 200, "polls": 3000, "replays_served": 50, "responses_lost": 100, "events_swallowed": 100, "emptied_responses": 20,
               "injected_delivered": 100, "regions_announced": 30, "teardowns": 20, "states": 100, "histories_judged": 200, "announcing_events_covered": 4, "responses_whose_handling_failed": 30,
               "steps_on_other_conversations": 300, "events_injected_as_messages": 100,
               "responses_with_two_identical_events": 50, "events_waiting_for_one_response": 2000, "events_injected_from_a_reused_message_object": 20, "responses_with_equal_events_apart": 50, "responses_with_look_alike_events": 20, "clock_advances": 50}
@@ -306,6 +306,14 @@ class World:
             self.interesting = True
         mitm_flow.response = make_flow("http://x.invalid/", resp=True,
                                        resp_content=llsd.format_xml({"id": sim_id, "events": events})).response
+        # Round 11: the simulator's web server may compress a response body (Content-Encoding); what it says is the same
+        enc = [None, "gzip", None, "deflate"][sim_id % 4]
+        if enc is not None:
+            plain = mitm_flow.response.content
+            mitm_flow.response.headers["Content-Encoding"] = enc
+            mitm_flow.response.content = plain          # mitmproxy encodes on assignment
+            if mitm_flow.response.raw_content != plain:
+                ctx.count("responses_with_a_compressed_body")
         state2 = self._pump("response", mitm_flow)
         self.addon.swallow_done = True
         if state2 is None:
